@@ -300,7 +300,7 @@ Definition encode_base64 (s : string) : string :=
    block whose first character is a TAB is then rejected by go-yaml's own scanner ("found a tab character
    where an indentation space is expected"). [yaml_block_allowed] follows yaml_emitter_analyze_scalar
    (block_allowed = not (trailing_space || space_break || special_characters)) for valid UTF-8 input.
-   Since the repair "a generated ConfigMap value that starts with a TAB and spans several lines is written
+   Since the repair baa93c5 "a generated ConfigMap value that starts with a TAB and spans several lines is written
    double-quoted" (makeConfigMapValueRNode) no generated value takes that path any more: [yaml_rt_fails] is kept
    as the description of go-yaml's behaviour but is no longer consulted by [hash_content]. *)
 
@@ -359,15 +359,17 @@ Definition yaml_rt_fails (v : string) : bool :=
   | EmptyString => false
   end.
 
-(* Since the repair "generated ConfigMap/Secret data keys are written as string keys" (kyaml/yaml/datamap.go) the
-   key nodes of data maps carry the !!str tag: a key spelled ~, null, Null or NULL is written quoted and every entry
-   reaches the hasher.  One spelling is still lost: the key << is treated as the YAML merge key by go-yaml's decoder
-   even when quoted, and its scalar value makes the decoder fail ("map merge requires map or sequence of maps as the
-   value"). *)
+(* Keys are written by kyaml's FieldSetter as untagged plain scalars, so go-yaml resolves them when the text is
+   read back: a key spelled ~, null, Null or NULL (or the empty string) is the YAML null, and decoding a null key
+   into map[string]interface{} drops the entry; the key << is the YAML merge key, whose scalar value makes the
+   decoder fail ("map merge requires map or sequence of maps as the value"). *)
+Definition yaml_null_key (k : string) : bool :=
+  String.eqb k "~" || String.eqb k "null" || String.eqb k "Null" || String.eqb k "NULL" || String.eqb k "".
 Definition yaml_merge_key (k : string) : bool := String.eqb k "<<".
 
-(* the entries of a data map that reach the hasher: all of them *)
-Definition hash_view (d : list (string * string)) : list (string * string) := d.
+(* the entries of a data map that reach the hasher *)
+Definition hash_view (d : list (string * string)) : list (string * string) :=
+  filter (fun kv => negb (yaml_null_key (fst kv))) d.
 
 (* ------------------------------------------------------------------ hasher.encodeConfigMap / encodeSecret *)
 
